@@ -384,7 +384,9 @@ fn fam_binding(tag: &str, out: &mut Vec<Case>) {
                 if let Some(p2) = tamper(&mem.proof, s) {
                     if p2 == mem.proof { continue; }
                     let v = Member { proof: p2, ..mem.clone() };
-                    if verify(&[v], VerifyAction::VerifyOnly, b"ctx").is_ok() { return Err(format!("accepted with proof element {} replaced", s)); }
+                    for action in [VerifyAction::VerifyOnly, VerifyAction::RecoverAndVerify] {
+                        if verify(&[v.clone()], action, b"ctx").is_ok() { return Err(format!("accepted with proof element {} replaced ({:?})", s, action)); }
+                    }
                 }
             }
             // commitments: replace one, swap two
@@ -393,7 +395,9 @@ fn fam_binding(tag: &str, out: &mut Vec<Case>) {
             for j in 0..m {
                 let mut c = st.commitments.clone(); c[j] = c[j] + st.generators.h_base();
                 let v = Member { statement: rebuild(c, st.minimum_value_promises.clone())?, ..mem.clone() };
-                if verify(&[v], VerifyAction::VerifyOnly, b"ctx").is_ok() { return Err(format!("accepted with commitment {} altered", j)); }
+                for action in [VerifyAction::VerifyOnly, VerifyAction::RecoverAndVerify] {
+                    if verify(&[v.clone()], action, b"ctx").is_ok() { return Err(format!("accepted with commitment {} altered ({:?})", j, action)); }
+                }
                 let mut p = st.minimum_value_promises.clone(); p[j] = Some(p[j].unwrap_or(0) + 1);
                 let v = Member { statement: rebuild(st.commitments.clone(), p)?, ..mem.clone() };
                 if verify(&[v], VerifyAction::VerifyOnly, b"ctx").is_ok() { return Err(format!("accepted with promise {} altered", j)); }
